@@ -348,6 +348,10 @@ func (e *Env) evalIdent(name string) (Bound, error) {
 			return Bound{V: fr.constVal(c.Value), T: c.Type()}, nil
 		}
 	}
+	// a variable of the enclosing function that this closure does not capture: some value the closure is not known to use
+	if b, ok := e.uncapturedParentLocal(name); ok {
+		return b, nil
+	}
 	return Bound{}, fmt.Errorf("unknown identifier %q", name)
 }
 
